@@ -196,7 +196,7 @@ TEXT = {
 for _e in ENGINES:
     if _e["name"] == "heap":
         _e["path"] = "coq/theories (Heap, Slice, HeapExt, HeapProofs, HeapExtProofs, RunHeap) + harness/heap.go, heapext.go, slice.go"
-        _e["serves_properties"] = ["C05", "C06", "C08", "C09", "C10", "C11", "C02", "C07", "C12", "C13", "C14", "C15", "C16", "C17", "C18"]
+        _e["serves_properties"] = ["C05", "C06", "C08", "C09", "C10", "C11", "C01", "C02", "C07", "C12", "C13", "C14", "C15", "C16", "C17", "C18"]
         _e["kind_free_text"] += ("; HeapExt.v puts the rest of the public API on the same heap (views with callbacks, typed slices, All*, aggregates, String/FormatString/Native* "
                                  "as the data they denote, NewListFrom/NewObjectFrom, async variants), so that every method can be interleaved with mutations through aliases")
 _XH = (" A second stream of heap-level programs (HeapExt.v) interleaves this property's operations with valid-domain mutations of the same containers "
@@ -204,6 +204,8 @@ _XH = (" A second stream of heap-level programs (HeapExt.v) interleaves this pro
        "hidden state and shared storage show up there).")
 for _p in ("C02", "C07", "C12", "C13", "C14", "C15", "C16", "C17", "C18"):
     TEXT[_p]["text"] += _XH
+TEXT["C01"]["text"] += (_XH + " In that stream Parse(x.String()) is a step whose result stays live: in the model it is the deep copy the round-trip theorem says it is (Clone), "
+                        "so a stale text, a shared parse result or a lost element shows as a different heap.")
 TEXT["C09"]["text"] += (" C09_no_write_any_operation / C09_any_created_container_is_fresh / C09_mutating_any_result_leaves_old_cells / "
                         "C09_mutating_old_containers_leaves_any_result extend the heap-level theorems to EVERY deriving operation the property names "
                         "(Filter and typed variants, Map*/MapAsync of lists and objects, typed slices, Reduce*, String, FormatString, All*, aggregates, Native*, NewListFrom/NewObjectFrom), "
